@@ -15,7 +15,7 @@ ENV = dict(os.environ, AWS_ACCESS_KEY_ID="verif", AWS_SECRET_ACCESS_KEY="verif",
            VERIF_GC_BINARY=os.path.join(VERIF, ".build", "partial-aftersun"), VERIF_SKYLIGHT_BINARY=os.path.join(VERIF, ".build", "skylight"))
 
 def main():
-    args = [a for a in sys.argv[1:] if not a.startswith("--")]
+    args = [a for a in sys.argv[1:] if not a.startswith("--") and not a.isdigit()]
     seeds = 12
     reps = 2
     for i, a in enumerate(sys.argv):
